@@ -141,7 +141,7 @@ Qed.
 
 (* ---------------------------------------------------------------- the loop computes fb *)
 Lemma filter_loop_bytes : forall fuel pb p, (length p < fuel)%nat ->
-  valid_topic_filter_loop fuel false (Some pb) p = Ok (fb pb p).
+  valid_topic_filter_loop fuel false (Some pb) p = Ok (fb pb p && no_nul p).
 Proof.
   induction fuel; intros pb p Hf; [lia|]. cbn [valid_topic_filter_loop].
   destruct p as [|p0 t] eqn:Ep; [reflexivity|]. rewrite <- Ep in *.
@@ -149,7 +149,12 @@ Proof.
   destruct (rune_step p Hp) as [Hs Hl].
   destruct (decode_rune_size p Hp) as [Hs1 Hs2].
   pose proof (decode_rune_multi p) as Hm.
-  destruct (decode_rune p) as [ru size]. cbn [snd andb] in *.
+  pose proof (rune_nul p0 t) as Hz. cbv zeta in Hz. rewrite <- Ep in Hz.
+  destruct (decode_rune p) as [ru size]. cbn [fst snd andb] in *.
+  assert (Hnn : no_nul p = negb (ru =? 0) && no_nul (dropN size p)).
+  { rewrite <- (take_drop _ p size) at 1. rewrite no_nul_app, Hz. reflexivity. }
+  rewrite Hnn. clear Hnn Hz.
+  destruct (ru =? 0); cbn [negb andb]; [rewrite andb_false_r; reflexivity|].
   rewrite Ep at 2. cbn [fb].
   destruct ((p0 =? HASH) && negb (is_empty t)); [reflexivity|]. cbn [negb andb].
   destruct (N.eqb_spec size 1) as [->|Hsz].
@@ -170,9 +175,8 @@ Proof.
     assert (Hp0 : 128 <= p0).
     { subst p. cbn [takeN] in Hhigh. replace (size =? 0) with false in Hhigh by lia. cbn [forallb] in Hhigh. lia. }
     unfold PLUS, HASH in *. replace (p0 =? 43) with false by lia. replace (p0 =? 35) with false by lia.
-    cbn [orb andb]. f_equal.
+    cbn [orb andb]. f_equal. f_equal.
     assert (Hsplit : p0 :: t = takeN size p ++ dropN size p) by (rewrite take_drop; symmetry; exact Ep).
-    change (fb p0 t) with (true && true && fb p0 t).
     assert (Hfb : fb pb (p0 :: t) = fb p0 t).
     { cbn [fb]. replace (p0 =? HASH) with false by (unfold HASH; lia). replace (p0 =? PLUS) with false by (unfold PLUS; lia). reflexivity. }
     rewrite <- Hfb. rewrite Hsplit. symmetry.
@@ -180,8 +184,9 @@ Proof.
     subst p. cbn [takeN]. replace (size =? 0) with false by lia. discriminate.
 Qed.
 
-(* ValidTopicFilter(false, s) is the specification's predicate, on every byte string *)
-Theorem filter_bytes_exact : forall s, valid_topic_filter_impl false s = Ok (valid_filter_spec s).
+(* ValidTopicFilter(false, s) is the specification's predicate (MQTT 4.7.1 level rules, non-empty,
+   no null byte), on every byte string *)
+Theorem filter_bytes_exact : forall s, valid_topic_filter_impl false s = Ok (valid_filter_spec s && no_nul s).
 Proof.
   intros s. unfold valid_topic_filter_impl, valid_filter_spec. destruct s as [|c t] eqn:Es; [reflexivity|].
   rewrite <- Es. rewrite filter_loop_bytes by lia. destruct (fb_levels s) as [HS _]. rewrite HS.
@@ -192,7 +197,7 @@ Lemma filter_bytes_exact' : forall s, valid_utf8_impl s = Ok true ->
   valid_topic_filter_impl false s = Ok (spec_utf8 s && valid_filter_spec s).
 Proof.
   intros s Hu. rewrite filter_bytes_exact. rewrite valid_utf8_impl_spec in Hu.
-  destruct (spec_utf8 s); [reflexivity|]. cbn in Hu. discriminate.
+  destruct (spec_utf8 s) eqn:E; [|cbn in Hu; discriminate]. rewrite (G_no_nul s E), andb_true_r. reflexivity.
 Qed.
 
 (* ---------------------------------------------------------------- ValidTopicFilter(true, s) as the decoder uses it *)
@@ -207,6 +212,7 @@ Proof.
   destruct (ru <=? 31); [discriminate|]. destruct ((127 <=? ru) && (ru <=? 159)); [discriminate|].
   cbn [andb] in *. destruct ((ru =? RUNE_ERROR) && (size <=? 1)); [discriminate|].
   destruct (negb (valid_rune ru)); [discriminate|].
+  destruct (ru =? 0); [reflexivity|].
   destruct ((p0 =? HASH) && negb (is_empty t)); [reflexivity|].
   match goal with |- bind ?x _ = bind ?x _ => destruct x as [ok| | |]; cbn [bind]; try reflexivity end.
   destruct (negb ok); [reflexivity|].
@@ -217,7 +223,7 @@ Qed.
 
 (* on every string the decoder passes to it (ValidUTF8 accepted it),
    ValidTopicFilter(true, s) gives the verdict of the specification *)
-Theorem filter_decoder_partial : forall s,
+Theorem filter_decoder_exact : forall s,
   valid_utf8_impl s = Ok true -> valid_topic_filter_impl true s = Ok (spec_topic_filter s).
 Proof.
   intros s Hu. unfold spec_topic_filter. rewrite <- (filter_bytes_exact' s Hu).
@@ -290,9 +296,10 @@ Proof.
   destruct (rune_step u Hp) as [Hs Hl]. destruct (decode_rune_size u Hp) as [H1 _].
   pose proof (decode_rune_multi u) as Hm.
   destruct (decode_rune u) as [ru size]. cbn [fst snd] in *.
-  destruct (ru <=? 31); [discriminate|]. destruct ((127 <=? ru) && (ru <=? 159)); [discriminate|].
+  destruct (N.leb_spec ru 31) as [|Hru31]; [discriminate|]. destruct ((127 <=? ru) && (ru <=? 159)); [discriminate|].
   destruct ((ru =? RUNE_ERROR) && (size <=? 1)); [discriminate|].
   destruct (negb (valid_rune ru)); [discriminate|].
+  replace (ru =? 0) with false by lia.
   replace (size =? 0) with false in H by lia. rewrite Hs in *. cbn [bind] in H.
   replace (shb u) with (if c =? SLASH then valid_topic_filter_impl true t
                         else if (c =? PLUS) || (c =? HASH) then Ok false else shb t) by (rewrite Eu; reflexivity).
@@ -351,12 +358,12 @@ Qed.
 
 (* ValidV5Topic on every string the decoder passes to it (ValidUTF8 accepted it):
    the verdict of the specification (4.7.1 filters, 4.8.2 shared subscriptions) *)
-Theorem v5_decoder_partial : forall s,
+Theorem v5_decoder_exact : forall s,
   valid_utf8_impl s = Ok true -> valid_v5_topic_impl s = Ok (spec_v5_filter s).
 Proof.
   intros s Hu. unfold valid_v5_topic_impl, spec_v5_filter.
   destruct s as [|s0 st] eqn:Es; [reflexivity|]. rewrite <- Es in *.
-  destruct (has_prefix SHARE_PREFIX s) eqn:Hpre; [|now apply filter_decoder_partial].
+  destruct (has_prefix SHARE_PREFIX s) eqn:Hpre; [|now apply filter_decoder_exact].
   destruct (share_prefix_inv s Hpre) as [u Hs].
   assert (HG : G s = true) by (rewrite G_utf8 in Hu; congruence).
   assert (HGu : G u = true).
@@ -388,5 +395,5 @@ Proof.
   apply andb_prop in HGf. destruct HGf as [_ HGf].
   rewrite (G_spec_utf8 g HGg), andb_true_r.
   destruct (has_wild g); [reflexivity|]. cbn [negb andb].
-  apply filter_decoder_partial. rewrite G_utf8, HGf. reflexivity.
+  apply filter_decoder_exact. rewrite G_utf8, HGf. reflexivity.
 Qed.
